@@ -220,13 +220,13 @@ def stepOutState (r : Run) (l : Loc) (err : Bool) : Run :=
     if d.breakOnError && err then
       let (is, d) := match d.is with
         | none => (freshState l, { d with breakOnStart := false })
-        | some is => ({ is with pos := l }, d)
+        | some is => (is, d)
       if is.err then
-        -- an error is already recorded (it is passing through an outer call): no second stop, and the
-        -- thread is NOT marked as suspended
+        -- an error is already recorded (it is only passing an outer call): no second stop, the thread is
+        -- not marked as suspended and its position (`is.node`) is NOT moved to the outer call
         { r with d := { d with is := some is } }
       else
-        park { r with d := { d with is := some { is with err := true, running := false } } } l
+        park { r with d := { d with is := some { is with pos := l, err := true, running := false } } } l
     else
       match d.is with
       | none => { r with d := d }
